@@ -24,7 +24,10 @@ import (
 
 func genC02(r *rand.Rand, kind string) *Scenario {
 	fan, _, _ := genFan(r, []string{kind})
-	fan.NeverStop = true
+	for !fan.NeverStop {
+		// (the expected minimum of a generated fan depends on neverStop)
+		fan, _, _ = genFan(r, []string{kind})
+	}
 	fan.HasRpm = true
 	fan.HasPwm = true
 	if fan.Kind == "hwmon" && fan.CfgMin == nil && fan.Measured == nil {
@@ -103,6 +106,10 @@ func checkC02(ctx *Ctx, sc *Scenario) {
 		r := rec.Request
 		if r < f0+off {
 			ctx.Violation("request-below-raised-minimum:"+class, fmt.Sprintf("cycle %d: request %d < initial minimum %d + offset %d (curve %d, loop %s)", rec.Idx, r, f0, off, rec.Step.Curve, sc.Loop.Kind), sc)
+		}
+		// the minimum the user's configuration / the attached measurement define - not what fan2go's getter says
+		if sc.Fan.ExpMin != nil && r < *sc.Fan.ExpMin {
+			ctx.Violation("request-below-configured-or-measured-minimum:"+class, fmt.Sprintf("cycle %d: request %d < minimum %d (configured min %s, start %s, max %s; GetMinPwm() says %d; curve %d, loop %s)", rec.Idx, r, *sc.Fan.ExpMin, pstr(sc.Fan.CfgMin), pstr(sc.Fan.CfgStart), pstr(sc.Fan.CfgMax), rec.MinBefore, rec.Step.Curve, sc.Loop.Kind), sc)
 		}
 		if r < rec.MinBefore {
 			ctx.Violation("request-below-fan-minimum:"+class, fmt.Sprintf("cycle %d: request %d < GetMinPwm() %d", rec.Idx, r, rec.MinBefore), sc)
